@@ -577,3 +577,53 @@ def t2(proj, rep, decision_functions):
                                               f'{"upper" if want > 0 else "lower"} side', m, node)
     rep.count('T2.sites', n)
     return n
+
+
+# ================================================================= F2 radicand guard
+RULE_F2 = ('F2: sqrt(1 - C*C) (or 1 - C**2) where C is computed by floating-point linear algebra (eigenvalues, norms: it attains its '
+           'mathematical maximum 1 only up to rounding) clamps the radicand at 0 (maximum(0, .) / clip / abs); otherwise the closed form '
+           'is NaN for maximally entangled inputs whose concurrence evaluates to 1 + ulp.')
+
+
+def f2(proj, rep, modules):
+    rep.rule('F2', RULE_F2)
+    n = 0
+    for fi in proj.iter_functions(modules):
+        m = fi.module
+        for c in own_nodes(fi.node):
+            if not (isinstance(c, ast.Call) and c.args and _ext(proj, m, c) in ('numpy.sqrt', 'torch.sqrt', 'math.sqrt')):
+                continue
+            arg = c.args[0]
+            if guard_kind(proj, m, arg) or (isinstance(arg, ast.Call) and _ext(proj, m, arg) in GUARD_MAX | GUARD_CLIP | {'numpy.abs', 'torch.abs'}):
+                # sqrt(maximum(0, 1 - C*C)) : guarded
+                inner = [x for x in ast.walk(arg) if _unit_radicand(x)]
+                if inner:
+                    n += 1
+                    rep.ok('F2', fi.qual, f'`{ast.unparse(c)[:60]}`: radicand clamped', m, c)
+                continue
+            if not _unit_radicand(arg):
+                continue
+            X = _unit_radicand(arg)
+            w = is_float_numeric(proj, m, fi.node, X)
+            if w is None:
+                continue
+            n += 1
+            lo, hi = interval(proj, m, fi.node, X, c)
+            if hi <= 1 and lo >= -1:
+                rep.ok('F2', fi.qual, f'`{ast.unparse(c)}`: |{ast.unparse(X)}| <= 1 by interval analysis', m, c)
+            else:
+                rep.violation('F2', fi.qual, f'`{ast.unparse(c)}`: `{ast.unparse(X)}` is computed by {w} and can exceed 1 by rounding; the radicand is '
+                              f'not clamped at 0 -> NaN', m, c)
+    rep.count('F2.unit_radicand_sites', n)
+    return n
+
+
+def _unit_radicand(e):
+    """1 - X*X  or 1 - X**2  -> X ; else None."""
+    if isinstance(e, ast.BinOp) and isinstance(e.op, ast.Sub) and isinstance(e.left, ast.Constant) and e.left.value == 1:
+        r = e.right
+        if isinstance(r, ast.BinOp) and isinstance(r.op, ast.Mult) and ast.dump(r.left) == ast.dump(r.right):
+            return r.left
+        if isinstance(r, ast.BinOp) and isinstance(r.op, ast.Pow) and isinstance(r.right, ast.Constant) and r.right.value == 2:
+            return r.left
+    return None
